@@ -38,6 +38,7 @@ type KnownFinding struct {
 	Property string               `json:"property"`
 	Status   string               `json:"status"` // known | fixed
 	Label    string               `json:"label,omitempty"`
+	LabelRe  string               `json:"label_re,omitempty"`
 	Kind     string               `json:"kind,omitempty"`
 	Site     string               `json:"site,omitempty"`
 	Job      map[string]string    `json:"job,omitempty"`
@@ -65,6 +66,11 @@ func (k *KnownFinding) matches(v *Violation, prop string) bool {
 	}
 	if k.Label != "" && k.Label != v.Label {
 		return false
+	}
+	if k.LabelRe != "" {
+		if ok, _ := regexp.MatchString(k.LabelRe, v.Label); !ok {
+			return false
+		}
 	}
 	if k.Kind != "" && k.Kind != v.Kind {
 		return false
